@@ -1,6 +1,7 @@
 import Wayfind.Model.Router
 import Wayfind.Spec.Grammar
 import Wayfind.Spec.Fault
+import Wayfind.Model.Errors
 
 /-! Text codec of the line protocol (hex byte strings, canonical result lines). Trusted glue, no theorems. -/
 namespace Driver
@@ -83,18 +84,18 @@ def showSpecParsed (r : Option (List (Bytes × List Part))) : String :=
 
 def showParsed (r : Except TErr (List (Bytes × List Part))) : String :=
   match r with
-  | .error e => "err " ++ showTErr e
+  | .error e => "err " ++ showTErr e ++ " R=" ++ hex e.render
   | .ok ts => "ok " ++ ";".intercalate (ts.map (fun (raw, ps) => hex raw ++ "|" ++ ",".intercalate (ps.map showPart)))
 
 def showInsert : Except InsertErr Router → String
   | .ok _ => "ok"
-  | .error (.template e) => "err Template " ++ showTErr e
+  | .error (.template e) => "err Template " ++ showTErr e ++ " R=" ++ hex e.render
   | .error (.unknownConstraint c) => "err UnknownConstraint " ++ hex c
   | .error (.conflict t cs) => "err Conflict " ++ hex t ++ " " ++ ",".intercalate (cs.map hex)
 
 def showDelete : Except DeleteErr Nat → String
   | .ok d => s!"ok {d}"
-  | .error (.template e) => "err Template " ++ showTErr e
+  | .error (.template e) => "err Template " ++ showTErr e ++ " R=" ++ hex e.render
   | .error (.notFound t) => "err NotFound " ++ hex t
   | .error (.mismatch t i) => "err Mismatch " ++ hex t ++ " " ++ hex i
 
